@@ -281,6 +281,24 @@ def slice_item(it):
 
 
 # ------------------------------------------------------------------ case -> worker steps
+def _has_complex(L):
+    if not isinstance(L, dict):
+        return False
+    if L.get("c") == "Numpy" and str(L.get("dt", "")).startswith(("complex", "c64", "c128")):
+        return True
+    return _has_complex(L.get("x")) or any(_has_complex(x) for x in L.get("xs", []))
+
+
+def _as_complex_records(v):
+    if isinstance(v, list):
+        return [_as_complex_records(x) for x in v]
+    if isinstance(v, bool) or v is None:
+        return v
+    if isinstance(v, (int, float)):
+        return {"re": v, "im": 0}
+    return v
+
+
 def steps_for(case, pick):
     act = case["act"]
     a = case.get("args", {})
@@ -290,6 +308,7 @@ def steps_for(case, pick):
         build["want"] = ["valid"]
         return [build]
     if act == "tolist":
+        build["want"] = build["want"] + ["json_writers"]
         return [build]
     if act == "slice":
         op = {"op": "getitem", "src": "a", "slice": [slice_item(it) for it in a["items"]],
@@ -377,8 +396,21 @@ def judge(case, res):
             got = json.loads(b["json"])
         except Exception as e:
             return "tojson not parseable: %s" % e
-        if not values_equal(got, vjson_to_py(case["exp"]["v"])):
+        want = vjson_to_py(case["exp"]["v"])
+        if _has_complex(case["from"]):
+            want = _as_complex_records(want)        # complex numbers are written as {"re": x, "im": y} (the chosen field names)
+        if not values_equal(got, want):
             return "to_list differs: library %s" % b["json"]
+        if "json_writers_exc" in b:
+            return "a JSON writer raised: %s" % b["json_writers_exc"]
+        for key in ("json_pretty", "json_file", "json_file_pretty"):
+            if key in b:
+                try:
+                    other = json.loads(b[key])
+                except Exception as e:
+                    return "%s is not parseable: %s" % (key, e)
+                if other != got:
+                    return "%s parses to %s, the compact string writer to %s" % (key, json.dumps(other)[:160], json.dumps(got)[:160])
         return None
     opi = 2 if act in ("concat", "setfield") else 1
     if len(res) <= opi:
